@@ -183,6 +183,40 @@ func init() {
 					}
 				}
 			}
+			// configurations whose container would hand one contextual instance to several contexts must not be built at
+			// all: a declared-shared service reaching a contextual one, with parameters / tags / decorators on the way
+			w.Case("scope-violating-configurations-are-not-built", func(c *C) {
+				mk := func(f func(c *Cfg)) *Cfg {
+					cfg := &Cfg{Meta: stdMeta(), Params: []Param{{"dsn", "x"}, {"opt", "%dsn%"}}, Services: []Service{{Name: "tx", Constructor: P("pk.New1"), Scope: P("contextual")}}}
+					f(cfg)
+					return cfg
+				}
+				cfgs := map[string]*Cfg{
+					"direct-with-param": mk(func(c *Cfg) {
+						c.Services = append(c.Services, Service{Name: "repo", Constructor: P("pk.New"), Args: []any{"%opt%", "@tx"}, Scope: P("shared")})
+					}),
+					"indirect-with-param": mk(func(c *Cfg) {
+						c.Services = append(c.Services, Service{Name: "mid", Constructor: P("pk.New"), Args: []any{"%dsn%", "@tx"}}, Service{Name: "repo", Constructor: P("pk.New"), Fields: []KV{{"F1", "@mid"}, {"F2", "%opt%"}}, Scope: P("shared")})
+					}),
+					"via-tag-with-param": mk(func(c *Cfg) {
+						c.Services[0].Tags = []Tag{{Name: "txs"}}
+						c.Services = append(c.Services, Service{Name: "repo", Constructor: P("pk.New"), Args: []any{"%dsn%", "!tagged txs"}, Tags: []Tag{{Name: "aaa"}}, Scope: P("shared")})
+					}),
+					"via-decorator-no-args": mk(func(c *Cfg) {
+						c.Services = append(c.Services, Service{Name: "repo", Constructor: P("pk.New"), Tags: []Tag{{Name: "decorated"}}, Scope: P("shared")})
+						c.Decorators = []Decorator{{Tag: "decorated", Decorator: "pk.Dec1", Args: []any{"%opt%", "@tx"}}}
+					}),
+				}
+				for _, name := range SortedKeys(cfgs) {
+					files := []File{{"c.yaml", cfgs[name].YAML()}}
+					br := w.Build(files)
+					c.Distinct("nontrivial", c.ID+name)
+					c.Count("evaluations_extra")
+					if br.OK() {
+						c.Violation("scope-violation-built:"+name, "a declared-shared service reaches a contextual one ("+name+") and the container was generated: it would cache one context's instance for every context", FilesMap(files), nil)
+					}
+				}
+			})
 			// the sequential composition of every driver's threads against the reference model (the explorer compares
 			// concurrent executions with the sequential run of the same build; this pins the sequential run itself)
 			w.Case("sequential-semantics", func(c *C) {
